@@ -48,6 +48,8 @@ def _run_unit(args):
         mod = load_module(prop_id)
         rec = core.Recorder(mod, core.load_known(prop_id), unit_name=f"{name}#{shard}")
         try:
+            if kind == "fuzz":
+                return _run_fuzz(prop_id, name, n_examples, seed, out, t0)
             if kind == "exh":
                 for case in mod.exhaustive(tier, shard, nshards):
                     rec.process(case, mod.check(case))
@@ -79,6 +81,44 @@ def _run_unit(args):
     return out
 
 
+def fuzz_available():
+    try:
+        import atheris  # noqa: F401
+        return True
+    except Exception:
+        return False
+
+
+def _run_fuzz(prop_id, name, runs, seed, out, t0):
+    """Coverage-guided unit: a separate process (libFuzzer never returns); its recorder state comes back as JSON."""
+    import subprocess
+    import tempfile
+    work = tempfile.mkdtemp(prefix="svfuzz_")
+    res = os.path.join(work, "result.json")
+    try:
+        budget = int(os.environ.get("SV_FUZZ_SECONDS", "900"))
+        try:
+            p = subprocess.run([sys.executable, "-m", "sv.fuzz", prop_id, name, str(runs), str(seed), res],
+                               stdout=subprocess.PIPE, stderr=subprocess.STDOUT, timeout=budget, cwd=core.VERIF)
+            rc, tail = p.returncode, p.stdout.decode(errors="replace")[-3000:]
+        except subprocess.TimeoutExpired as e:
+            rc, tail = 0, "(wall-clock budget reached: inconclusive beyond the cases flushed so far)"
+        if os.path.exists(res):
+            with open(res) as f:
+                got = json.load(f)
+            out.update({"violation": got["violation"], "rec": got["rec"]})
+            out["unit"] = got["unit"]
+            if rc != 0 and not got.get("done"):
+                out["error"] = f"fuzz process exited {rc}:\n{tail}"
+        else:
+            out["error"] = f"fuzz process produced no result (exit {rc}):\n{tail}"
+    finally:
+        import shutil
+        shutil.rmtree(work, ignore_errors=True)
+    out["wall"] = round(time.time() - t0, 2)
+    return out
+
+
 def plan_units(mod, prop_id, tier, seed):
     units = []
     strategies = mod.strategies(tier)
@@ -92,6 +132,11 @@ def plan_units(mod, prop_id, tier, seed):
         per = int(math.ceil(n / nsh))
         for k in range(nsh):
             units.append((prop_id, "hyp", name, k, nsh, per, seed * 1000 + k, tier))
+    # coverage-guided complement (atheris/libFuzzer driving the same strategy and oracle), where the module asks for it
+    fz = getattr(mod, "FUZZ", {}).get(tier, {})
+    if fz and fuzz_available():
+        for name, runs in fz.items():
+            units.append((prop_id, "fuzz", name, 0, 1, runs, seed, tier))
     if hasattr(mod, "exhaustive"):
         nsh = getattr(mod, "EXH_SHARDS", {"quick": 8, "thorough": 16})[tier]
         for k in range(nsh):
@@ -224,7 +269,7 @@ def main(argv=None):
     try:
         units = plan_units(mod, prop_id, a.tier, seed)
         if a.only:
-            units = [u for u in units if u[2] == a.only]
+            units = [u for u in units if (f"fuzz:{u[2]}" if u[1] == "fuzz" else u[2]) == a.only]
         ctx = multiprocessing.get_context("fork")
         with ctx.Pool(min(a.jobs, max(1, len(units))), maxtasksperchild=1) as pool:
             for r in pool.imap_unordered(_run_unit, units, chunksize=1):
@@ -258,6 +303,11 @@ def main(argv=None):
         "code_under_test": where,
         "harness_errors": len(errors),
     }
+    if getattr(mod, "FUZZ", {}).get(a.tier):
+        extra["coverage_guided"] = ("atheris/libFuzzer drove strategies %s through hypothesis fuzz_one_input with branch "
+                                    "coverage of scinumtools as feedback (units 'fuzz:<strategy>')"
+                                    % sorted(mod.FUZZ[a.tier])) if fuzz_available() else \
+            "atheris is not importable here: the coverage-guided units were skipped (random search only)"
     extra.update(getattr(mod, "EXTRA_COVERAGE", {}))
     ev = None
     if merged["evaluations"] > 0:
